@@ -1178,6 +1178,71 @@ func init() {
 			}, nil
 		}
 	}
+	// C09/C12: a derived profile with keys wider than 32 bits and a plain list claim (absent / empty / filled)
+	for _, prop := range []string{"C09", "C12"} {
+		prop := prop
+		Scenarios[strings.ToLower(prop)+".odd-fields-profile"] = func() (choice.Scenario, func() any) {
+			return func(c *choice.Ctx) {
+				a := genValidOpt(c, kindP2, false, true)
+				a.Canon, a.Profile = ExtOddFieldsName, sp(ExtOddFieldsName)
+				xi, err := buildBySetters(a)
+				if err != nil {
+					c.Failf(prop+":odd-fields-profile:build", "%v", err)
+					return
+				}
+				x := xi.(*ExtOddFieldsClaims)
+				if c.Choose("big", 2) == 0 {
+					b, n := "wide-key", int64(-9)
+					x.Big, x.Neg = &b, &n
+				}
+				switch c.Choose("notes", 3) {
+				case 0:
+					x.Notes = []string{"a", ""}
+				case 1:
+					x.Notes = []string{}
+				}
+				if prop == "C12" && x.Notes != nil && len(x.Notes) == 0 {
+					return // what JSON does with an empty list under omitempty is encoding/json's convention, not claimed
+				}
+				encStats.StateStr("odd-fields" + a.String() + x.Describe())
+				encStats.Trans.Add(2)
+				var yi psatoken.IClaims
+				var enc []byte
+				if prop == "C09" {
+					if enc, err = psatoken.EncodeClaimsToCBOR(x); err == nil {
+						yi, err = psatoken.DecodeClaimsFromCBOR(enc)
+					}
+				} else {
+					var cb []byte
+					if cb, err = psatoken.EncodeClaimsToCBOR(x); err == nil {
+						var mid psatoken.IClaims
+						if mid, err = psatoken.DecodeClaimsFromCBOR(cb); err == nil {
+							if enc, err = psatoken.EncodeClaimsToJSON(mid); err == nil {
+								yi, err = psatoken.DecodeClaimsFromJSON(enc)
+							}
+						}
+					}
+				}
+				if err != nil {
+					c.Failf(prop+":odd-fields-profile:error", "%v (%s)", err, x.Describe())
+					return
+				}
+				y, ok := yi.(*ExtOddFieldsClaims)
+				if !ok {
+					c.Failf(prop+":odd-fields-profile:type", "%T", yi)
+					return
+				}
+				if g1, g2 := getterVector(x)+" "+x.Describe(), getterVector(y)+" "+y.Describe(); g1 != g2 {
+					c.Failf(prop+":identity:odd-fields-profile", "x %s\ny %s", g1, g2)
+				}
+				b1, e1 := psatoken.EncodeClaimsToCBOR(x)
+				b2, e2 := psatoken.EncodeClaimsToCBOR(y)
+				if e1 != nil || e2 != nil || !bytes.Equal(b1, b2) {
+					c.Failf(prop+":byte-stability:odd-fields-profile", "%v %v\n%x\n%x", e1, e2, b1, b2)
+				}
+			}, nil
+		}
+	}
 	// C12: registered profiles whose NAME contains characters the JSON encoder escapes
 	Scenarios["c12.escaped-profile-name"] = func() (choice.Scenario, func() any) {
 		names := []string{"http://example.com/psa?variant=a&rev=2", "http://example.com/psa/it's", "http://example.com/psa?q=<1>"}
@@ -1258,11 +1323,13 @@ func init() {
 				exploreChoiceOpts(r, "c12.escaped-profile-name", 2, dl, 1)
 				exploreChoiceOpts(r, "c12.same-name-claim-types", 1, dl, 1)
 				exploreChoice(r, "c12.shadowing-profile", 2, dl)
+				exploreChoice(r, "c12.odd-fields-profile", 2, dl)
 			} else {
 				if prop == "C09" {
 					exploreChoice(r, "c09.ext-wide", -1, dl)
 					exploreChoiceOpts(r, "c09.same-name-claim-types", 1, dl, 1)
 					exploreChoice(r, "c09.shadowing-profile", 2, dl)
+					exploreChoice(r, "c09.odd-fields-profile", 2, dl)
 					for kind := 0; kind < 2; kind++ {
 						exploreChoice(r, fmt.Sprintf("c09.decode-change-roundtrip.%s", kindNames[kind]), b, dl)
 						exploreChoice(r, fmt.Sprintf("c09.method-decode-after-rejected.%s", kindNames[kind]), b, dl)
